@@ -44,6 +44,9 @@ class OsslEndpoint(loop.Endpoint):
         self.cur = None
         self.blocked = None
         self.history = []
+        # everything this endpoint does to the outside world, in order (its
+        # randomness is real): enough to replay the tlslite side exactly
+        self.tape = []
         reuse = ctx is not None
         if reuse:
             self.ctx = ctx
@@ -102,8 +105,11 @@ class OsslEndpoint(loop.Endpoint):
                 d = self.sock.recv(65536)
             except socket.error as e:
                 if e.args[0] in (errno.EWOULDBLOCK, errno.EAGAIN):
+                    self.tape.append(["r", -1])
                     break
+                self.tape.append(["r", -2])
                 raise
+            self.tape.append(["r", len(d)])
             if not d:
                 self.inb.write_eof()
                 break
@@ -114,6 +120,7 @@ class OsslEndpoint(loop.Endpoint):
     def _pump_out(self):
         d = self.outb.read()
         if d:
+            self.tape.append(["s", bytes(d).hex()])
             self.sock.sendall(d)
 
     def _drive(self, fn):
@@ -124,10 +131,12 @@ class OsslEndpoint(loop.Endpoint):
                 r = fn()
             except ssl.SSLWantReadError:
                 self._pump_out()
+                self.tape.append(["y", 0])
                 yield 0
                 continue
             except ssl.SSLWantWriteError:
                 self._pump_out()
+                self.tape.append(["y", 1])
                 yield 1
                 continue
             finally:
@@ -136,19 +145,56 @@ class OsslEndpoint(loop.Endpoint):
             yield ("result", r)
             return
 
+    def facts(self):
+        o = self.obj
+        try:
+            pc = o.getpeercert(True) is not None
+        except Exception:       # noqa
+            pc = False
+        return {"cipher": list(o.cipher() or ()), "version": o.version(),
+                "alpn": o.selected_alpn_protocol(), "peercert": pc,
+                "reused": bool(o.session_reused)}
+
+    def _taped(self, inner, value=False, facts=False):
+        """Run generator `inner`, writing its end (and result) to the tape."""
+        def g():
+            self.tape.append(["op"])
+            try:
+                last = None
+                for x in inner():
+                    if type(x) is int and x in (0, 1):
+                        yield x
+                    else:
+                        last = x
+                if facts:
+                    self.tape.append(["facts", self.facts()])
+                self.tape.append(["end", "ok", bytes(last).hex()
+                                  if value and last is not None else None])
+                if last is not None:
+                    yield last
+            except GeneratorExit:
+                raise
+            except BaseException as e:
+                self.tape.append(["end", "exc", type(e).__name__,
+                                  [a for a in e.args
+                                   if isinstance(a, (int, str))],
+                                  getattr(e, "reason", None)])
+                raise
+        return g
+
     def gen_handshake(self):
         def g():
             for x in self._drive(self.obj.do_handshake):
                 if x in (0, 1):
                     yield x
-        return g
+        return self._taped(g, facts=True)
 
     def gen_write(self, data):
         def g():
             for x in self._drive(lambda: self.obj.write(data)):
                 if x in (0, 1):
                     yield x
-        return g
+        return self._taped(g)
 
     def gen_read(self, n):
         def g():
@@ -163,7 +209,7 @@ class OsslEndpoint(loop.Endpoint):
                             return
                         buf += x[1]
             yield buf
-        return g
+        return self._taped(g, value=True)
 
     def gen_close(self):
         def g():
@@ -174,7 +220,123 @@ class OsslEndpoint(loop.Endpoint):
                         return
             except ssl.SSLError:
                 return
-        return g
+        return self._taped(g)
+
+    def _post(self):
+        return (False, None)
+
+
+class ReplayDiverged(Exception):
+    """The tlslite side did not behave as it did when the tape was made."""
+
+
+class _StubObj(object):
+    """Recorded facts of an SSLObject."""
+    session = None
+
+    def __init__(self):
+        self.f = {"cipher": [], "version": None, "alpn": None,
+                  "peercert": False, "reused": False}
+
+    def cipher(self):
+        return tuple(self.f["cipher"])
+
+    def version(self):
+        return self.f["version"]
+
+    def selected_alpn_protocol(self):
+        return self.f["alpn"]
+
+    def getpeercert(self, binary=False):
+        return b"recorded" if self.f["peercert"] else None
+
+    @property
+    def session_reused(self):
+        return self.f["reused"]
+
+
+class ReplayOssl(loop.Endpoint):
+    """Plays an OsslEndpoint tape: the same socket calls, the same bytes, the
+    same yields, the same results - OpenSSL itself is not run.  tlslite is
+    deterministic, so it meets exactly the environment of the recorded run;
+    any difference in what it sends raises ReplayDiverged."""
+
+    def __init__(self, sim, name, sock, tape):
+        self.sim = sim
+        self.name = name
+        self.sock = sock
+        self.node = kernel.Node(name, sim.seed)
+        self.conn = _FakeConn()
+        self.op = None
+        self.cur = None
+        self.blocked = None
+        self.history = []
+        self.tape = [list(e) for e in tape]
+        self.pos = 0
+        self.obj = _StubObj()
+        self.ctx = None
+
+    def _play(self):
+        import errno
+        import socket
+        if self.pos >= len(self.tape) or self.tape[self.pos][0] != "op":
+            raise ReplayDiverged("operation not on the tape")
+        self.pos += 1
+        while True:
+            if self.pos >= len(self.tape):
+                raise ReplayDiverged("tape exhausted")
+            ev = self.tape[self.pos]
+            self.pos += 1
+            k = ev[0]
+            if k == "r":
+                try:
+                    got = len(self.sock.recv(65536))
+                except socket.error as e:
+                    got = -1 if e.args[0] in (errno.EWOULDBLOCK,
+                                              errno.EAGAIN) else -2
+                if got != ev[1]:
+                    raise ReplayDiverged("recv gave %d, tape says %d" %
+                                         (got, ev[1]))
+                if got == -2:
+                    raise socket.error(errno.ECONNRESET, "recorded")
+            elif k == "s":
+                self.sock.sendall(bytes.fromhex(ev[1]))
+            elif k == "y":
+                yield ev[1]
+            elif k == "facts":
+                self.obj.f = ev[1]
+            elif k == "end":
+                if ev[1] == "ok":
+                    if ev[2] is not None:
+                        yield bytes.fromhex(ev[2])
+                    return
+                name = ev[2]
+                cls = getattr(ssl, name, None) or \
+                    getattr(__import__("builtins"), name, RuntimeError)
+                try:
+                    e = cls(*ev[3])
+                except Exception:       # noqa
+                    e = RuntimeError(name, ev[3])
+                if ev[4] is not None:
+                    try:
+                        e.reason = ev[4]
+                    except Exception:   # noqa
+                        pass
+                raise e
+            else:
+                raise ReplayDiverged("bad tape entry %r" % (ev,))
+
+    def gen_handshake(self):
+        return self._play
+
+    def gen_write(self, data):
+        return self._play
+
+    def gen_read(self, n):
+        return self._play
+
+    def gen_close(self):
+        return self._play
 
     def _post(self):
         return (False, None)
